@@ -80,6 +80,17 @@ func inFocus(prop string, o op) bool {
 		return true
 	case "C05":
 		return true
+	case "C05small":
+		if o.Kind == "publish" {
+			return o.Arg == "1s"
+		}
+		if o.Kind == "inject-user" {
+			switch o.Arg {
+			case "pay-G-A", "pay-A-B", "pay-A2-C", "pay-A3-B", "pay-B-A", "pay-G-C-samefee", "merge-A":
+				return true
+			}
+		}
+		return false
 	case "C06":
 		if o.Kind == "rebuild-indexes" {
 			return false
@@ -515,7 +526,19 @@ func (n *node) publish(o op, fail failer) string {
 		n.checkBlockTxn(&sb.Body.Transactions[i], fail)
 	}
 	m.Apply(sb)
-	return fmt.Sprintf("publish:%d-of-%d", len(incl), len(cands))
+	eligSize := 0
+	for _, c := range cands {
+		if c.Elig {
+			eligSize += c.Size
+		}
+	}
+	if eligSize > int(m.P.MaxBlockSize) {
+		return "publish:size-limit-binds"
+	}
+	if len(incl) < nElig {
+		return "publish:conflict-arbitrated"
+	}
+	return "publish:all-eligible-included"
 }
 
 // followerAccepts replays the publisher's chain into a fresh real follower node and offers it the new block.
